@@ -268,7 +268,7 @@ def meaning(case, env):
 
 
 def expect_compiles(stmts, macro):
-    """Source-level rule: True = must compile, False = must be rejected, None = either (empty Hardcode range).
+    """Source-level rule: True = must compile, False = must be rejected (None = either: not used any more).
     Macro dispatch takes any labels and default; the binary search needs consecutive ascending labels and no
     default; the first entry is always a case."""
     verdict = True
@@ -293,8 +293,8 @@ def expect_compiles(stmts, macro):
             if v is None:
                 verdict = None
         elif s[0] == "hard":
-            if s[2] > s[3] and not macro:
-                verdict = None
+            if s[2] > s[3]:
+                return False                            # count < begin_at: "the switch would have no case"
             elif len(s) > 5 and s[5]:
                 v = expect_compiles(s[5], macro)
                 if v is False:
@@ -1014,7 +1014,7 @@ def case_failure(c, rng):
         return f
     if must is False:
         return dict(kind="invalid-program-accepted",
-                    expected="a diagnostic: the binary search cannot represent these labels / default",
+                    expected="a diagnostic: the binary search cannot represent these labels / default, or a Hardcode.switch without cases",
                     actual="compiled without one")
     return None
 
